@@ -1,5 +1,5 @@
 RULES = [
-    ("C04-F1", "m.write(m.read() + d + d) with one held input used in two chained additions: the cell iterates "
+    ("C04-F1", "a chain in which one held input is added twice (m.write(m.read() + d + d), also with other steps in between): the cell iterates "
                "2*m + 2*d instead of m + 2*d (the feedback is counted twice)",
-     lambda c, d: c["chain"] == ["+h", "+h"]),
+     lambda c, d: c["chain"].count("+h") >= 2),
 ]
